@@ -512,7 +512,44 @@ func (o *Origin) load(addr ssa.Value, at ssa.Instruction) *Term {
 		}
 		return &Term{Op: "deref", Args: []*Term{t}}
 	}
-	return &Term{Op: "deref", Args: []*Term{o.Of(addr)}}
+	return o.withPointeeStores(addr, at, &Term{Op: "deref", Args: []*Term{o.Of(addr)}})
+}
+
+// withPointeeStores: a whole-value load *p where the function also assigns fields through an equal pointer (p.F = v) is
+// described as update(deref(p), F:v, ...) unless every such assignment happens strictly after the load.
+func (o *Origin) withPointeeStores(addr ssa.Value, at ssa.Instruction, base *Term) *Term {
+	if _, isPtr := addr.Type().Underlying().(*types.Pointer); !isPtr {
+		return base
+	}
+	pt := o.Of(addr).String()
+	var kvs []*Term
+	for _, b := range o.fn.Blocks {
+		for _, in := range b.Instrs {
+			st, ok := in.(*ssa.Store)
+			if !ok {
+				continue
+			}
+			fa, ok := st.Addr.(*ssa.FieldAddr)
+			if !ok {
+				continue
+			}
+			if _, isAlloc := fa.X.(*ssa.Alloc); isAlloc {
+				continue
+			}
+			if !types.Identical(fa.X.Type(), addr.Type()) || o.Of(fa.X).String() != pt {
+				continue
+			}
+			if at != nil && o.dominates(at, st) && !inCycle(at.Block()) {
+				continue
+			}
+			kvs = append(kvs, &Term{Op: "kv", Name: fieldName(fa.X.Type(), fa.Field), Args: []*Term{o.Of(st.Val)}})
+		}
+	}
+	if len(kvs) == 0 {
+		return base
+	}
+	sort.Slice(kvs, func(i, j int) bool { return kvs[i].Name < kvs[j].Name })
+	return &Term{Op: "update", Args: append([]*Term{base}, kvs...)}
 }
 
 // fieldMutated reports whether the function stores to the same field through an equal base pointer in a
